@@ -43,6 +43,11 @@ def slice {α} (xs : List α) (lo hi : Int) : GoM (List α) :=
   if 0 ≤ lo ∧ lo ≤ hi ∧ hi ≤ xs.length then pure ((xs.drop lo.toNat).take (hi - lo).toNat)
   else throw (.panic "slice bounds out of range")
 
+/-- `string(b)` for a byte `b`: the UTF-8 encoding of the code point `b` — one byte below 0x80, two bytes from there on
+(so it never equals a one-byte ASCII string then) -/
+def byteToString (b : UInt8) : List UInt8 :=
+  if b < 128 then [b] else [(0xC0 : UInt8) ||| (b >>> 6), (0x80 : UInt8) ||| (b &&& 0x3F)]
+
 /-- `*p` -/
 def deref {α} : Option α → GoM α
   | some a => pure a
